@@ -238,7 +238,12 @@ pub fn c08_families(tier: &str) -> Vec<Family> {
     } else {
         v.push(fam(DS, 3, "w123", &ORD_ALL));
         v.push(fam(DS, 3, "wf32", &ORD_TWO));
-        v.push(fam(DS, 3, "wf71", &ORD_ONE));
+        {
+            // same bounded family as the quick tier (at most three edges: every distance is one addition)
+            let mut f = fam(DS, 3, "wf71", &ORD_ONE);
+            f.max_edges = 3;
+            v.push(f);
+        }
         v.push(fam(US, 3, "wf32", &ORD_TWO));
         v.extend(route_small("w12", true));
         v.extend(hist_small("w12", false));
